@@ -16,6 +16,9 @@ pub struct Knobs {
     pub txsend_fail: u64, // out of 10 sends
     pub rx_genuine: u64,
     pub rx_garbage: u64,
+    /// out of 10 genuine deliveries: response made longer than the request (extra bytes declared in the
+    /// EtherCAT length field, still fitting the slot)
+    pub rx_longer: u64,
     pub poll: u64,
     pub drop_fut: u64,
     pub read: u64,
@@ -30,7 +33,7 @@ impl Default for Knobs {
     fn default() -> Self {
         Knobs {
             alloc: 10, push: 12, mark: 10, drop_created: 1, txnext: 10, txsend_fail: 1, rx_genuine: 10,
-            rx_garbage: 1, poll: 10, drop_fut: 1, read: 10, advance: 1, reset: 0, snap_every_op: true,
+            rx_garbage: 1, rx_longer: 2, poll: 10, drop_fut: 1, read: 10, advance: 1, reset: 0, snap_every_op: true,
             max_retries: 2, timeout_us: 1000,
         }
     }
@@ -270,7 +273,18 @@ impl Gen {
             6 => {
                 let i = self.rng.below(self.sent.len() as u64) as usize;
                 let f = if self.rng.chance(4, 5) { self.sent.remove(i) } else { self.sent[i].clone() };
-                let resp = response_for(&f.bytes, &mut self.rng);
+                let mut resp = response_for(&f.bytes, &mut self.rng);
+                if self.rng.below(10) < k.rx_longer && resp.len() >= 16 && resp.len() < self.w.data {
+                    // a response longer than its request: more payload declared and present
+                    let extra = self.rng.range(1, (self.w.data - resp.len()) as u64) as usize;
+                    let h = u16::from_le_bytes([resp[14], resp[15]]);
+                    let l = (h & 0x7ff) as usize + extra;
+                    if l <= 0x7ff {
+                        resp[14..16].copy_from_slice(&((h & 0xf800) | l as u16).to_le_bytes());
+                        let tail = self.rng.bytes(extra);
+                        resp.extend(tail.iter().map(|b| b | 1));
+                    }
+                }
                 self.op(format!("rx,{}", hex(&resp)));
             }
             7 => {
